@@ -164,7 +164,8 @@ def run(ck):
 
         for p in returning(paths_of(prog, thk), "_single_basis_KL"):
             t_, m_ = T.sym("t"), T.sym("m")
-            want = T.app("sum", t_ * T.app("plog", t_), "all") - T.app("sum", t_ * T.app("plog", m_), "all")
+            # sum_x t(x) log t(x) - sum_x t(x) log m(x); a sum of an element-wise product of two vectors is their dot product
+            want = T.app("matmul", t_, T.app("plog", t_)) - T.app("matmul", t_, T.app("plog", m_))
             got = p.value.term
             if got == want:
                 ck.ok("C10.R3", "_single_basis_KL = sum t log t - sum t log m", skl.site())
@@ -248,7 +249,7 @@ def _check_nll(ck, inst, f, p, t, mname):
         if len(acc) == 1 and atoms.get(B.single_atom()) == -1 and c == 1 and len(mono) == 2:
             rest = acc[0].args[3]
             rs = rest.single_mono()
-            ok = rs is not None and rs[1] == -1 and len(rs[0]) == 1 and isinstance(rs[0][0][0], T.App) and rs[0][0][0].op == "sum" and rs[0][0][0].args[1] == "all"
+            ok = rs is not None and rs[1] == -1 and len(rs[0]) == 1 and isinstance(rs[0][0][0], T.App) and rs[0][0][0].op == "sum" and rs[0][0][0].args[1] in ("all", (-1,))
             if rs is not None and rs[1] == 1:
                 ok = False
         elif len(acc) == 1 and c == 1 and B.single_atom() not in atoms:
